@@ -26,6 +26,15 @@ except Exception as _ex:
     R4_STATUS = {"DivKernels": "unparsed generator-failed: %s" % str(_ex)[:200]}
     R4_DETAIL = {}
 
+# round 5: coq/gen/DivBodiesGen.v - the recursion of div/divide_conquer.rs (both mutually recursive bodies with the callee as a
+# function parameter, the knot through fuel, the blocked loop) and the algorithm switch of div/mod.rs over it
+try:
+    import translate_c02_r5
+    R5_STATUS = translate_c02_r5.generate(core.REPO, os.path.join(core.COQ, "gen"))
+    R5_DETAIL = {"functions": dict(translate_c02_r5.LAST_RESULTS)}
+except Exception as _ex:
+    R5_STATUS = {"DivBodies": "unparsed generator-failed: %s" % str(_ex)[:200]}
+    R5_DETAIL = {}
 
 
 def _build_model_first():
@@ -61,6 +70,10 @@ if os.path.realpath(core.REPO) != os.path.realpath("/repo") and os.path.realpath
             translate_c02_r4.generate("/repo", os.path.join(core.COQ, "gen"))
         except Exception:
             pass
+        try:
+            translate_c02_r5.generate("/repo", os.path.join(core.COQ, "gen"))
+        except Exception:
+            pass
 
     atexit.register(_restore_r3)
 
@@ -70,6 +83,10 @@ R3_TIED_BY = {
     "MulAllocEvents": "C02_mem_mul_same_len",
     "ReprArms": "C02_typed_div_rem, C02_typed_div, C02_typed_rem",
     "PrimRows": "C02_prim_rows",
+}
+R5_TIED_BY = {
+    "DivOps": "C02_ops_ibig, C02_ops_ubig, C02_ops_ubig_ibig, C02_ops_ibig_ubig, C02_ops_mixed_only_plain, C02_ops_assign_forward",
+    "DivBodies": "C02_gen_dc_small_quotient, C02_gen_dc_same_len, C02_gen_dc_div_rem, C02_gen_div_rem_in_place_full, C02_gen_full_kernel_correct, C02_gen_div_rem_large_dword, C02_gen_div_large_dword, C02_gen_rem_large_dword, C02_gen_const_rem, C02_gen_const_div_rem, C02_gen_const_unconditional",
 }
 R4_TIED_BY = {
     "DivKernels": "C02_gen_fast_div_by_word .. C02_gen_dc_tail (15 theorems: generated = hand model for every w), C02_gen_small_divisor_correct",
@@ -145,6 +162,13 @@ def extra_phase(tier, seed, exes, oracle):
         hist["TRANSLATOR_C02_R3:%s:%s" % (name, st.split(" ", 1)[0])] = 1
     for name, st in R4_STATUS.items():
         hist["TRANSLATOR_C02_R4:%s:%s" % (name, st.split(" ", 1)[0])] = 1
+    for name, st in R5_STATUS.items():
+        hist["TRANSLATOR_C02_R5:%s:%s" % (name, st.split(" ", 1)[0])] = 1
+    ok5 = all(st == "ok" for st in R5_STATUS.values())
+    sample5 = {"fragment": "coq/gen/DivBodiesGen.v (tools/translate_c02_r5.py over translate_c02_r4.py / translate_c01_r4.py, from "
+                           "integer/src/div/divide_conquer.rs and div/mod.rs)",
+               "status": dict(R5_STATUS), "detail": R5_DETAIL,
+               "tied_by": R5_TIED_BY if ok5 else "functions reported `unparsed` keep their last good copy (marked STALE) and are tied by the correspondence run only"}
     allok = all(st == "ok" for st in R3_STATUS.values())
     sample = {"fragment": "coq/gen/DivDispatch.v (tools/translate_c02_r3.py from integer/src/div/*.rs, mul/*.rs, div_ops.rs, helper_macros.rs)",
               "status": dict(R3_STATUS),
@@ -161,7 +185,7 @@ def extra_phase(tier, seed, exes, oracle):
         for cfg, wbits in EXTRA_CONFIGS:
             cases = list(enumerate(other_build_cases(rng.fork(cfg), tier, n, wbits)))
             evaluations += _other_build(cfg, wbits, cases, exes, oracle, hist, failures, nontrivial)
-    return {"evaluations": evaluations, "hist": hist, "nontrivial": nontrivial, "samples": [sample4, sample], "failures": failures}
+    return {"evaluations": evaluations, "hist": hist, "nontrivial": nontrivial, "samples": [sample5, sample4, sample], "failures": failures}
 
 ID = "C02"
 READY = True
@@ -209,13 +233,28 @@ LEVEL_TEXT = ("Machine-checked Coq theorems for all inputs: (1) the sign fix-up 
               "invert_double_word transcribed; no debug assertion of the constructors fires), value() = n, from_* = new; (8) every "
               "debug_assert*! of div / div_const / div_ops / mul whose argument has side effects is the crate's always-evaluating "
               "debug_assert_zero! (list regenerated, decided by computation). "
+              "(9) round 5 - coq/gen/DivBodiesGen.v (tools/translate_c02_r5.py): the RECURSION of divide_conquer.rs is regenerated too - "
+              "div_rem_in_place_small_quotient and div_rem_in_place_same_len are each translated with the other as a function parameter "
+              "(slices `&mut lhs[n - m..]`, `&rhs[n - m..]`, `&mut lhs[..n + n_lo]` as firstn / skipn with write-back), the knot is tied "
+              "through fuel, the blocked loop `while m >= 2 * n` of div_rem_in_place is a fuelled Fixpoint, the THRESHOLD_SIMPLE switch "
+              "is regenerated over this kernel: each is proved equal to the hand model for every word size and every instance of the "
+              "primitives meeting the 3-by-2 / multiply-subtract contracts (well-formed dividend, normalised divisor), and the function "
+              "made of generated code only is proved to return remainder, quotient and carry with NO fuel premise "
+              "(C02_gen_full_kernel_correct); the *_large_dword helpers of div_ops.rs::repr (zero test = DivideBy0 guard, shrink_dword) "
+              "and the word / double-word ConstDivisor paths of div_const.rs (rem_word / rem_dword / rem_large of ConstSingleDivisor and "
+              "ConstDoubleDivisor, div_rem_small_single / _double, the Single / Double arms of the Div / Rem / Rem-by-reference / DivRem "
+              "impl blocks) are regenerated and proved equal to the transcriptions, unconditionally = a / d, a mod d, DivideBy0 for w >= 8; "
+              "coq/gen/DivOpsGen.v: the operator layer of div_ops.rs (every forward_*_binop_to_repr! / impl_binop_assign_by_taking! "
+              "invocation: which body macro or TypedRepr operation each public operator of UBig / IBig / mixed operands expands to, with "
+              "which signs) is regenerated and the dispatch of the sign-layer model is proved to be that table - so from the public "
+              "operator down to the word loops every level is generated. "
               "Models tied to the code by a correspondence run on every check (fidelity 100%), in three builds: verif profile, RELEASE "
               "profile (debug assertions and overflow checks off) and force_bits=\"32\" (word-level models run at w = 32).")
-LEVEL_NOTE = ("Hand-transcribed (tied by the run, not regenerated): the RECURSION of divide_conquer.rs (div_rem_in_place, _same_len, the recursive "
-              "calls of _small_quotient; its tail is regenerated), the kernels of OTHER files the division code calls (shift.rs, add.rs, "
+LEVEL_NOTE = ("Hand-transcribed (tied by the run, not regenerated): the kernels of OTHER files the division code calls (shift.rs, add.rs, "
               "mul/mod.rs sub_mul_word, cmp.rs, math.rs shr_word / shl_dword, primitive.rs - atoms k_* of Int/DivKernelsBase.v = the hand models "
-              "of DivWordModel.v; C01 / C09 regenerate those files), the *_large_dword helpers and the panic_divide_by_0 calls of "
-              "div_ops.rs::repr, the Small x Const arms and rem paths of div_const.rs::repr, helpers::add_signed_mul_split_into_chunks "
+              "of DivWordModel.v; C01 / C09 regenerate those files), the selection of the ConstDivisor arm by the operand variants and the "
+              "Large-divisor arms of div_const.rs::repr (rem_large_large, the Large x Large DivRem / Div arms), the expansion of the "
+              "forward_*_binop_to_repr! helper macros themselves (sign / magnitude split, helper_macros.rs), helpers::add_signed_mul_split_into_chunks "
               "(memory model), Buffer::{pop_zeros, push_resizing, erase_front, clone_from_slice}. ConstDivisor's stored fields are private: the "
               "run reads them off the derived Debug output. "
               "The memory theorems are about lengths; that the allocator hands out exactly the requested words (memory.rs, no padding "
@@ -224,8 +263,9 @@ LEVEL_NOTE = ("Hand-transcribed (tied by the run, not regenerated): the RECURSIO
               "proved for the model; the run compares values (all call forms must agree). A proof break of a regenerated fragment "
               "without a failing input is reported as VIOLATION ... no-failing-input-found. Trusted: Coq kernel, translators, "
               "extraction + FastZ.v, zarith, harness.")
-TECHNIQUE = ("Coq proof (sign tables, ownership arms, memory formulas and allocation traces, primitive macro rows AND the loop kernels of "
-             "division regenerated from source; word-level algorithm models) + extracted-model correspondence run in three builds "
+TECHNIQUE = ("Coq proof (sign tables, operator layer, ownership arms, memory formulas and allocation traces, primitive macro rows, the loop kernels of "
+             "division AND the divide-and-conquer recursion, the *_large_dword helpers and the word / double-word ConstDivisor paths regenerated "
+             "from source; word-level algorithm models) + extracted-model correspondence run in three builds "
              "(verif, release, 32-bit words)")
 RULE = ("cases = call form (every operator / trait / ownership variant / Assign twin is evaluated inside one case and must agree) x "
         "type pairing {UBig, IBig, UBig-IBig, IBig-UBig, ConstDivisor, primitives, is_multiple_of(_const)} x 4 sign combinations x "
@@ -254,7 +294,12 @@ EXPLANATION = ("Theorems in coq/props/C02.v (sign layer = spec for all signs; sp
                "style the translator cannot read keeps the last good copy and is reported `unparsed`), DivAssertsGen.v (C02_debug_asserts_keep_"
                "side_effects), C02_const_new* (construction). The oracle evaluates the generated kernels on every case with a dividend of "
                "more than two words, and runs the release and the 32-bit build on a reduced list (extra phase; a failure there is replayed "
-               "with ./check C02 --replay <file>, the plug-in substitutes the recorded build).")
+               "with ./check C02 --replay <file>, the plug-in substitutes the recorded build). Round 5: coq/gen/DivBodiesGen.v (recursion of "
+               "divide_conquer.rs through fuel, switch over it, *_large_dword helpers, word / double-word ConstDivisor methods and arms) and "
+               "DivOpsGen.v (operator layer) regenerated by tools/translate_c02_r5.py; theorems C02_gen_dc_*, C02_gen_div_rem_in_place_full, "
+               "C02_gen_full_kernel_correct, C02_gen_*_large_dword, C02_gen_const_*, C02_ops_*; the oracle evaluates the generated recursion on every "
+               "kernel-hook case (k.0 / k.2, block loop boundaries 2n-1 / 2n / 2n+1), the generated *_large_dword helpers on every Large / Small "
+               "case and the generated ConstDivisor arms on every uc / ic case with a one- or two-word divisor.")
 TRUSTED_BASE = [
     "Coq 8.16.1 kernel",
     "tools/translate.py renders impl_ibig_div/rem/divrem/div_euclid/rem_euclid/divrem_euclid and impl_ubig_ibig_* faithfully (magnitude `/`, `%`, div_rem -> Z./, Z.modulo on non-negative magnitudes; with_sign -> signed)",
@@ -265,6 +310,7 @@ TRUSTED_BASE = [
     "shift kernels (shl_in_place / shr_in_place) and add/sub/sub_mul word kernels are re-modelled locally in Int/DivWordModel.v with their contracts proved there; mul::add_signed_mul is C01's model (contract proved for w >= 8)",
     "tools/translate_c02_r4.py + tools/translate_c01_r4.py (library): Rust loops -> Gallina folds (for / reverse for / rchunks / index while / window while / split_last), exact integer meaning of + - * << >> | & on words (range premises in the theorems), `debug_assert_zero!(e)` = evaluate e, other debug_assert*! dropped, FastDivideNormalized(2) values = the normalised divisor with the primitives as record fields; atoms in Int/DivKernelsBase.v (trailing_zeros x = log2 gcd(x, 2^log2 x), split_last, shr_word, k_* = hand models of other files' kernels)",
     "the side-effect classifier of the debug-assertion list (regex: `&mut`, *_in_place, add_signed_mul*, add_mul_* / sub_mul_*, buffer mutators) and the recognition of the macro body `let __check__ = $($arg)*; debug_assert_eq!(__check__ ..)` in helper_macros.rs",
+    "tools/translate_c02_r5.py (over the r4 / C01 translators): open recursion (the recursive callee of each divide_conquer.rs body becomes a function parameter; the knot `Fixpoint .. fuel` is fixed text emitted only when both bodies were read), `let x: SignedWord = f(..).into()` = SignedWord::from, const_assert! dropped, the recursion fuel of div_rem_in_place's callees added to the source text as a first argument (lhs.len() + 1); `if rhs == 0 { panic_divide_by_0(); }` as first statement becomes the DivideBy0 guard of <fn>_chk_gen, `if let Some(word) = shrink_dword(rhs)` = `rhs < B` with word = rhs; `self.0.shift()` / `self.0.divider()` of ConstSingle/DoubleDivisor become the parameters (shift, normalised divisor), match arms of div_const.rs::repr are cut out by their patterns; the operator rows are read from the macro invocations by regular expressions, a body macro `impl_X` is the function X_gen of SignTables.v",
     "ConstDivisor fields are read from `{:?}` (derived Debug of ConstDivisor, PreMulInv2by1/3by2, Normalized2by1/3by2Divisor) by the harness",
     "core.CONFIGS release / w32 builds of the harness; the oracle takes the word size from the environment variable C02_W set by the plug-in",
 ]
